@@ -27,7 +27,10 @@ let install_fileseq register get geti getb =
   register "fseqm" (fun kv ->
     let p = geti kv "p" and conc = geti kv "conc" in
     let o = { maxPacket = nat_of_int p; maxConc = nat_of_int conc; concReads = getb kv "cr"; concWrites = getb kv "cw"; useFstat = getb kv "fstat" } in
-    let s = { file = bytes_of_hex (get kv "init"); maxTx = nat_of_int (geti kv "maxtx"); rfail = (fun _ -> None); wfail = (fun _ -> None) } in
+    let plan k = (try plan_of (get kv k) with _ -> []) in
+    let rplan = plan "rfail" and wplan = plan "wfail" in
+    let lookup pl = fun (o : nat) -> List.assoc_opt (int_of_nat o) pl in
+    let s = { file = bytes_of_hex (get kv "init"); maxTx = nat_of_int (geti kv "maxtx"); rfail = lookup rplan; wfail = lookup wplan } in
     let ops = List.map (fun t -> match split ':' t with
       | ["r"; n] -> FRead (nat_of_int (int_of_string n))
       | ["w"; h] -> FWrite (bytes_of_hex h)
